@@ -1993,8 +1993,10 @@ impl VirtualFileSystem for Memfs {
     fn set_cwd<T: AsRef<Path>>(&self, path: T) -> RvResult<PathBuf> {
         let mut guard = self.write_guard();
         let path = self._abs(&guard, path)?;
-        if !guard.contains_entry(&path) {
-            return Err(PathError::does_not_exist(&path).into());
+        match guard.get_entry(&path) {
+            Some(x) if x.is_dir() => {},
+            Some(_) => return Err(PathError::is_not_dir(&path).into()),
+            None => return Err(PathError::does_not_exist(&path).into()),
         }
         guard.set_cwd(path.clone());
         Ok(path)
